@@ -56,6 +56,90 @@ def stump_fns():
                 do_split=do_split, feature=feature)
 
 
+TABLE_CPP = 'src/wlearner/table.cpp'
+CLOSURE = r'\(lambda at .*table\.cpp:\d+:\d+\)'
+TABLE_TYPES = WL_TYPES + [(r'^nano::hashes_t$|tensor_t<nano::tensor_vector_storage_t, unsigned long, 1>', 'struct nv_t1u'),
+                          (r'^nano::feature_t$', 'struct nv_feature'), (r'^nano::feature_type$', 'int32_t'),
+                          (r'Eigen::Map<\s*(const )?Eigen::Matrix<signed char, -1, 1', 'struct nv_mrow')]
+TABLE_MEMBERS = WL_MEMBERS + [(r'^feature\|nano::single_feature_wlearner_t', 'sfw_feature'),
+                              (r'^vector\|nano::single_feature_wlearner_t', 'nv_tbl_vector'),
+                              (r'^tables\|nano::single_feature_wlearner_t', '{self}->m_tables'),
+                              (r'^feature\|nano::dataset_t', 'nv_dataset_feature({self}, {0})'),
+                              (r'^type\|nano::feature_t', '{self}->type')]
+TABLE_CALLS = WL_CALLS + [(r'^find\|nano::tensor_size_t \(const nano::hashes_t &, const int &\)', 'nv_find_sclass'),
+                          (r'^find\|nano::tensor_size_t \(const nano::hashes_t &, const Eigen::Map<const Eigen::Matrix<signed char', 'nv_find_mclass'),
+                          (r'^ctor\|nano::tensor_t<nano::tensor_carray_storage_t, long, 1>\|', '{0}')]   # indices_cmap_t(indices_t): same view
+
+
+def size0_hook(tu):
+    """tensor.size<0>() on a rank-4 tensor -> .rows; the template argument is not in the JSON dump, so the hook reads it
+    from the source text of the call and refuses anything but <0>"""
+    import re
+
+    def h(P, n):
+        if n.get('kind') != 'CXXMemberCallExpr':
+            return None
+        me = n['inner'][0]
+        if me.get('kind') != 'MemberExpr' or me.get('name') != 'size' or 'tensor_base_t<double, 4' not in me['inner'][0]['type'].get('qualType', ''):
+            return None
+        b, e = astload.source_text(n)
+        text = open(astload.resolve_tu(tu), 'rb').read()[b:e].decode()
+        if not re.search(r'size\s*<\s*0\s*>\s*\(\s*\)$', text):
+            from cxx2c import Unsupported
+            raise Unsupported(f'rank-4 size call that is not size<0>(): {text!r}')
+        obj = me['inner'][0]
+        P.note('tensor4d.size<0>() -> .rows')
+        return f'{P.expr(obj)}.rows'
+    return h
+
+
+def lambda_owner(owner_flt, owner_name):
+    """select the specialisation of the file-local template `process` whose operator type is the lambda written inside
+    the given member function: the (line, col) in the closure type's name is converted to a file offset and compared
+    with the member function's source range (no hard-wired line numbers)"""
+    import re
+
+    def sel(d):
+        ta = astload.template_args(d)
+        if len(ta) != 1:
+            return False
+        m = re.search(r'lambda at .*:(\d+):(\d+)\)', ta[0])
+        if not m:
+            return False
+        o = astload.find_definition(TABLE_CPP, owner_flt, owner_name)
+        lines = open(astload.resolve_tu(TABLE_CPP), 'rb').read().split(b'\n')
+        off = sum(len(x) + 1 for x in lines[:int(m.group(1)) - 1]) + int(m.group(2)) - 1
+        return o['range']['begin']['offset'] <= off <= o['range']['end']['offset']
+    return sel
+
+
+def table_fns(which):
+    """which = 'predict' | 'split': do_predict / do_split, its lambda, and the instantiation of process<that lambda>
+    with both of its callbacks (single-label, multi-label)"""
+    P = which[0].upper()
+    owner = 'do_' + which
+    clo = f'struct nv_clo_{which}'
+    types = [(CLOSURE, clo)] + TABLE_TYPES
+    common = dict(types=types, members=TABLE_MEMBERS, hooks=[size0_hook(TABLE_CPP)])
+    caps = '&outputs, self' if which == 'predict' else '&cluster, samples'
+    opcall = (f'table_{which}_lambda({{0}}.self, {{1}}, {{2}}, {{0}}.outputs)' if which == 'predict'
+              else f'table_{which}_lambda({{1}}, {{2}}, {{0}}.cluster, {{0}}.samples)')
+    top = Fn(f'table_{owner}', TABLE_CPP, owner, flt=f'table_wlearner_t::{owner}', self_struct='struct nv_table',
+             calls=TABLE_CALLS + [(r'^process\|', f'table_process_{P}({{&0}}, {{&1}}, {{2}}, {{&3}}, {{&4}}, &({clo}){{{caps}}})')], **common)
+    lam = Fn(f'table_{which}_lambda', TABLE_CPP, owner, flt=f'table_wlearner_t::{owner}', lambda_index=0, captures=True,
+             self_struct='struct nv_table' if which == 'predict' else None, calls=TABLE_CALLS, **common)
+    sel = lambda_owner(f'table_wlearner_t::{owner}', owner)
+    proc = Fn(f'table_process_{P}', TABLE_CPP, 'process', flt='process', select=sel, kinds=('FunctionDecl',),
+              calls=TABLE_CALLS + [(r'^loop_sclass\|', f'nv_loop_sclass_{P}({{&0}}, {{&1}}, {{2}}, hashes, hash2tables, op)'),
+                                   (r'^loop_mclass\|', f'nv_loop_mclass_{P}({{&0}}, {{&1}}, {{2}}, hashes, hash2tables, op)')], **common)
+    cb = [Fn(f'table_process_{P}_{k}', TABLE_CPP, 'process', flt='process', select=sel, kinds=('FunctionDecl',), lambda_index=i,
+             captures=True, calls=TABLE_CALLS + [(r'^operator\(\)\|void \(const nano::tensor_size_t, const nano::tensor_size_t\) const\|', opcall)],
+             **common) for i, k in enumerate(('sclass', 'mclass'))]
+    feature = Fn('sfw_feature', 'src/wlearner/single.cpp', 'feature', flt='single_feature_wlearner_t::feature',
+                 self_struct='struct nv_table', types=types)
+    return [top, lam, proc] + cb + [feature]
+
+
 def targs(*want):
     return lambda d: astload.template_args(d) == list(want)
 
@@ -73,6 +157,9 @@ def build(tier):
     targets.append(Target('stump_split', [f['split'], f['split_lambda']], SH))
     f = stump_fns()
     targets.append(Target('stump_do_split', [f['do_split'], f['split'], f['split_lambda'], f['feature']], SH))
+    TH = 'specs/C10/table.h'
+    targets.append(Target('table_do_predict', table_fns('predict'), TH))
+    targets.append(Target('table_do_split', table_fns('split'), TH))
     return {
         'targets': targets, 'vcs': [],
         'decided': [],
